@@ -311,7 +311,41 @@ def apis():
         st["armed"] = True
         p.compute(3, progress_type="rec")
 
-    return [("Tempo.compute", True, tempo, True), ("MeanFieldTempo.compute", True, meanfield, True),
+    def broken_pt(which):
+        """a process tensor that fails late: its cap tensor of step `which` has the wrong shape / is absent, every MPO tensor is fine"""
+        bp = oqupy.process_tensor.SimpleProcessTensor(2, dt=0.1)
+        for k in range(3):
+            bp.set_mpo_tensor(k, np.ones((1, 1, 4), dtype=complex))
+        for k in range(4):
+            if k != which:
+                bp.set_cap_tensor(k, np.ones(1, dtype=complex))
+            elif which < 3:
+                bp.set_cap_tensor(k, np.ones(3, dtype=complex))
+        return bp
+
+    def dyn_caps(fail_at):
+        # fail_at = 1..4: the cap of step fail_at - 1 (the last one: the final-state extraction after the loop)
+        bp = broken_pt(fail_at - 1) if fail_at is not None else pt
+        try:
+            oqupy.compute_dynamics(oqupy.System(0.3 * oqupy.operators.sigma("x")), initial_state=rho, process_tensor=bp, progress_type="rec")
+        except (ValueError, IndexError, TypeError, AttributeError) as ex:
+            if fail_at is None:
+                raise
+            raise Boom() from ex
+
+    def field_caps(fail_at):
+        bp = broken_pt(fail_at - 1) if fail_at is not None else pt
+        sf = oqupy.TimeDependentSystemWithField(lambda t, a: 0.3 * oqupy.operators.sigma("x"))
+        try:
+            oqupy.compute_dynamics_with_field(oqupy.MeanFieldSystem([sf], field_eom=lambda t, st_, a: -0.1 * a), 0.1 + 0j, process_tensor_list=[bp],
+                                              initial_state_list=[rho], progress_type="rec")
+        except (ValueError, IndexError, TypeError, AttributeError) as ex:
+            if fail_at is None:
+                raise
+            raise Boom() from ex
+
+    return [("compute_dynamics(bad cap tensor)", False, dyn_caps, [1, 2, 3, 4]), ("compute_dynamics_with_field(bad cap tensor)", False, field_caps, [1, 2, 3, 4]),
+            ("Tempo.compute", True, tempo, True), ("MeanFieldTempo.compute", True, meanfield, True),
             ("compute_correlations_nt", True, corr_nt, True),
             ("compute_dynamics", False, dyn, True), ("compute_dynamics_with_field", False, dyn_field, True),
             ("compute_gradient_and_dynamics", False, grad, True),
